@@ -1167,11 +1167,16 @@ impl Scenario for MigScenario {
         if !surfaced_end && !state.is_terminal() && !use_arb {
             world.skew = 0;
             store.fail_next = 0;
-            for p in world.mempool.values_mut() {
-                if p.include_at.is_none() {
-                    // a transaction nobody relays is eventually evicted; the consumer sees it expire (far away) — make it minable
-                    p.include_at = Some(world.tip + 1);
+            // a transaction nobody relayed either reaches a miner after all, or stays unmined until it expires (then the
+            // engine has to notice that it, and everything below it, can no longer move)
+            if ch.chance("final.unrelayed_reaches_miner", 1, 2) {
+                for p in world.mempool.values_mut() {
+                    if p.include_at.is_none() {
+                        p.include_at = Some(world.tip + 1);
+                    }
                 }
+            } else if world.mempool.values().any(|p| p.include_at.is_none()) {
+                ctx.probe("unrelayed_transaction_left_to_expire");
             }
             let mut idle = 0u32;
             let mut iters = 0u64;
@@ -1184,6 +1189,10 @@ impl Scenario for MigScenario {
                 world.scanned = world.tip;
                 let step = drive!(false);
                 let Some(step) = step else { break };
+                if ctx.verbose && (iters < 40 || iters % 10_000 == 0) {
+                    let summary: Vec<String> = state.transactions().iter().map(summarize_tx).collect();
+                    ctx.event(format!("final phase iter {iters} tip {} step {:?} mempool {:?}; {summary:?}", world.tip, std::mem::discriminant(&step), world.mempool.values().map(|p| (p.include_at, p.expiry)).collect::<Vec<_>>()));
+                }
                 match step {
                     AdvanceStep::Prove { transactions } => {
                         idle = 0;
@@ -1220,8 +1229,11 @@ impl Scenario for MigScenario {
                         // Rebuild / Replan must surface). The clock jumps to the next height at which anything can change.
                         let eff = world.tip + 1;
                         let mut next: Vec<u32> = vec![];
-                        for p in world.mempool.values() {
-                            if let Some(a) = p.include_at {
+                        for (t, p) in world.mempool.iter() {
+                            // only what a miner can actually include: funded by mined transactions (a child waits for its
+                            // parent, and with it for whatever the parent waits for)
+                            let funded = world.funded_by.get(t).map(|f| f.iter().all(|x| world.mined.contains_key(x))).unwrap_or(true);
+                            if let (Some(a), true) = (p.include_at, funded) {
                                 next.push(a.max(eff));
                             }
                         }
@@ -1244,6 +1256,9 @@ impl Scenario for MigScenario {
                         }
                         if dead.len() >= 3 {
                             ctx.probe("dead_set_depth_reached");
+                        }
+                        if !dead.is_empty() && state.transactions().iter().all(|t| matches!(t.state(), MigrationTxState::Mined { .. }) || dead.contains(&t.id())) {
+                            ctx.probe("waiting_while_every_unmined_transaction_is_dead");
                         }
                         for t in state.transactions() {
                             if dead.contains(&t.id()) {
